@@ -387,6 +387,36 @@ pub fn check16(case: &DocCase) -> Res {
         if viol.is_some() {
             break;
         }
+        // model-free: every item shows exactly the source lines first..last, each with its own
+        // 1-based number, tabs as four spaces
+        let src_lines: Vec<&str> = case.src.split('\n').collect();
+        for (k, j) in items.iter().enumerate() {
+            let bl: Vec<&str> = j.block.split('\n').collect();
+            if bl.len() < 3 || j.last < j.first || bl.len() - 2 != j.last - j.first + 1 {
+                viol = Some((
+                    "item-line-count".into(),
+                    format!("item {k}: line_range ({},{}) but {} numbered lines: {:?}", j.first, j.last, bl.len().saturating_sub(2), j.block),
+                ));
+                break;
+            }
+            for (i, l) in bl[1..bl.len() - 1].iter().enumerate() {
+                let n = j.first + i;
+                let want = format!("{:7} |{}", n, n.checked_sub(1).and_then(|i| src_lines.get(i)).copied().unwrap_or("<no such line>").replace('\t', "    "));
+                if *l != want {
+                    viol = Some((
+                        "numbered-line-is-not-that-source-line".into(),
+                        format!("item {k}: expected {want:?}, got {l:?}"),
+                    ));
+                    break;
+                }
+            }
+            if viol.is_some() {
+                break;
+            }
+        }
+        if viol.is_some() {
+            break;
+        }
         // rendering against the description, region by region (regions as the *subject* reports
         // them: C15/C17 decide whether they are the right regions; here only how they render)
         let regions = an.regions(all);
@@ -527,27 +557,33 @@ fn ast_params(prop: &str, tier: Tier) -> AstParams {
         blank: true,
         rich: false,
         short_unwrap: false,
+        shared_lines: true,
     };
     match (prop, tier) {
         ("C17", Tier::Quick) => AstParams {
-            max_lines: 10,
+            max_lines: 8,
             max_depth: 2,
-            block_kinds: vec![Kind::Future, Kind::Expired, Kind::SkipExpired],
-            inline_kinds: vec![],
+            block_kinds: vec![Kind::Future, Kind::Expired, Kind::SkipFuture, Kind::SkipExpired],
+            inline_kinds: vec![Kind::Future, Kind::Expired],
             blank: false,
             short_unwrap: true,
+            shared_lines: false,
             ..base
         },
         ("C17", Tier::Thorough) => AstParams {
-            max_lines: 12,
+            max_lines: 10,
             max_depth: 3,
-            block_kinds: vec![Kind::Future, Kind::Expired, Kind::SkipExpired, Kind::Unregistered],
-            inline_kinds: vec![],
+            block_kinds: vec![Kind::Future, Kind::Expired, Kind::SkipFuture, Kind::SkipExpired, Kind::Unregistered],
+            inline_kinds: vec![Kind::Future, Kind::Expired],
             blank: false,
             short_unwrap: true,
+            shared_lines: false,
             ..base
         },
-        (_, Tier::Quick) => base,
+        (_, Tier::Quick) => AstParams {
+            max_lines: 5,
+            ..base
+        },
         (_, Tier::Thorough) => AstParams {
             max_lines: 8,
             max_depth: 3,
